@@ -124,6 +124,11 @@ func hsRaceBody(h hsRace, prop string) vsched.Body {
 					if !r.wrote || r.Code != 400 || !strings.Contains(string(r.Body), `"code":1`) {
 						x.Fail("closed-session-answered%s: a request naming the closed session was answered %d %s", fp, r.Code, bodyPreview(r.Body))
 					}
+					u := w.DialWS(4, s.Id, false, false, "")
+					x.Run(x.Now() + time.Second)
+					if u.Resp.Conn != nil || !u.Resp.wrote || u.Resp.Code != 400 || !strings.Contains(string(u.Resp.Body), `"code":1`) {
+						x.Fail("closed-session-answered%s: a websocket upgrade request naming the closed session was answered %d %s (connection taken over: %v)", fp, u.Resp.Code, bodyPreview(u.Resp.Body), u.Resp.Conn != nil)
+					}
 				}
 			}
 		} else {
